@@ -9,24 +9,25 @@ history of the primitive steps (`at`, child write, `erase`, `touch`, empty `appl
 
 * `keyset_lmt_le_dict_lmt`   : the key set's last-modified-time never exceeds the dictionary's (any history, any times).
 * `run_kinv`                 : `k ≤ d ≤ now`, a dictionary with a live key has a valid key set.
-* `keyset_valid_iff_dict_valid` : for every guarded history (an erase of an absent key only on a dictionary whose
-                               key set is valid - what `apply_delta` guarantees; a child write only with a live key)
-                               the key set is valid exactly when the dictionary is: valid from the dictionary's FIRST
-                               write on, whatever that write is - an `at`, a bare `touch()`, an empty delta.  This is the
-                               lemma the seeded change s64 falsifies (`seeded_touch_leaves_keyset_invalid`).
+* `keyset_valid_iff_dict_valid` : after EVERY history with positive times the key set is valid exactly when the
+                               dictionary is: valid from the dictionary's FIRST write on, whatever that write is - an
+                               `at`, a bare `touch()`, an empty delta, an erase of an absent key, a `clear()`.  This is the
+                               lemma the seeded change s64 falsifies (`seeded_touch_leaves_keyset_invalid`) and the rule
+                               before /repo 8d7f72a falsified (`prefix_blind_erase_leaves_keyset_invalid`).
 * `keyset_modified_iff_membership_changed_or_first_write` : a step at `t` makes the key set read modified at `t`
                                iff it already did, or the step writes the dictionary and (changes the membership or
                                the key set was never valid).
-* `keyset_lmt_eq_spec`       : on guarded histories the code (`stamps`) IS the tidy rule (`specStamps`): same
+* `keyset_lmt_eq_spec`       : the code (`stamps`) IS the tidy rule (`specStamps`) on every history: same
                                records, same keys, after every history.
 * `keyset_endpoint_record`, `keyset_consumer_eq_keyset_record` : seen as producer endpoints of `Model/TrackBind.lean`
                                the dictionary and its key set carry exactly `d` and `k`; a TSS input bound (plain
                                bind, at any point of the history) to the key set reads modified exactly when
                                `k = now` and last-modified-time `k` - the producer's key-set record.
 
-Code, not tidy spec: `blind_erase_first_write_leaves_keyset_invalid` - `TSDDataMutationView::erase` of an absent
-key as the very first write validates the dictionary (`touch_impl -> mark_modified`) and NOT its key set; the
-unguarded statement `KeysetValidFull` is refuted (`not_keysetValidFull`).  `apply_delta` never takes that path.
+Regression witnesses: `prefix_blind_erase_leaves_keyset_invalid` / `prefix_not_keysetValid` - with the rule before
+/repo 8d7f72a (`stampsPreFix`: an erase of an absent key never looks at the key set) a blind erase as the very first
+write leaves the dictionary valid and its key set invalid, while the coded rule keeps both valid on the same history;
+`clear_validates_keyset` - `clear()` on a never-valid dictionary validates the key set.
 -/
 namespace HgVerif.KeySet
 open HgVerif.TrackBind (record record_le le_record_left le_record_right record_eq_of_le)
@@ -79,7 +80,7 @@ theorem step_keys_k (s : DK) (p : Prim) (t : Nat) (ht : 0 < t) (h : s.keys ≠ [
       simp only [keysAfter, hs, if_true] at hk; exact hk
     | erase key =>
       intro he; simp [keysAfter, he] at hk
-    | childTick => simpa [keysAfter] using hk
+    | childTick key => simpa [keysAfter] using hk
     | touch => simpa [keysAfter] using hk
     | emptyDelta => simpa [keysAfter] using hk
 
@@ -106,8 +107,8 @@ theorem run_kinv : ∀ (h : List (Prim × Nat)) (now : Nat) (s : DK), KInv now s
 
 /-! ## valid -/
 
-/-- one guarded step keeps "key set valid ⇔ dictionary valid" -/
-theorem step_valid_iff (s : DK) (p : Prim) (t : Nat) (ht : 0 < t) (hg : Guarded s p)
+/-- one step keeps "key set valid ⇔ dictionary valid" -/
+theorem step_valid_iff (s : DK) (p : Prim) (t : Nat) (ht : 0 < t)
     (hk : s.keys ≠ [] → s.k ≠ 0) (hv : s.k ≠ 0 ↔ s.d ≠ 0) :
     (dkStep s p t).k ≠ 0 ↔ (dkStep s p t).d ≠ 0 := by
   unfold dkStep; simp only
@@ -117,20 +118,20 @@ theorem step_valid_iff (s : DK) (p : Prim) (t : Nat) (ht : 0 < t) (hg : Guarded 
     by_cases hc : (!s.keys.contains key) = true
     · simp only [hc, if_true]; exact ⟨fun _ => record_ne_zero ht, fun _ => record_ne_zero ht⟩
     · simp only [hc, Bool.false_eq_true, if_false]; exact hv
-  | childTick =>
-    have hk0 : s.k ≠ 0 := hk hg
-    simp only [stamps, ticks, Bool.false_eq_true, if_false, if_true]
-    exact ⟨fun _ => record_ne_zero ht, fun _ => hk0⟩
-  | erase key =>
-    simp only [stamps, ticks, if_true]
+  | childTick key =>
+    simp only [stamps, ticks, Bool.false_eq_true, if_false]
     by_cases hc : s.keys.contains key = true
-    · simp only [hc, if_true]; exact ⟨fun _ => record_ne_zero ht, fun _ => record_ne_zero ht⟩
-    · have hk0 : s.k ≠ 0 := by
-        rcases hg with h | h
-        · exact absurd h hc
-        · exact h
-      simp only [hc, Bool.false_eq_true, if_false]
+    · have hne : s.keys ≠ [] := by intro h; rw [h] at hc; simp at hc
+      have hk0 : s.k ≠ 0 := hk hne
+      simp only [hc, if_true]
       exact ⟨fun _ => record_ne_zero ht, fun _ => hk0⟩
+    · simp only [hc, Bool.false_eq_true, if_false]; exact hv
+  | erase key =>
+    simp only [stamps, ticks, if_true, Bool.or_eq_true, beq_iff_eq]
+    by_cases hc : s.keys.contains key = true ∨ s.k = 0
+    · rw [if_pos hc]; exact ⟨fun _ => record_ne_zero ht, fun _ => record_ne_zero ht⟩
+    · have hk0 : s.k ≠ 0 := fun h => hc (Or.inr h)
+      rw [if_neg hc]; exact ⟨fun _ => record_ne_zero ht, fun _ => hk0⟩
   | touch =>
     simp only [stamps, ticks, if_true, beq_iff_eq]
     by_cases hk0 : s.k = 0
@@ -149,51 +150,47 @@ theorem step_valid_iff (s : DK) (p : Prim) (t : Nat) (ht : 0 < t) (hg : Guarded 
     · have h1 : ¬ (s.d = 0 ∧ s.k = 0) := fun h => hd h.1
       rw [if_neg h1, if_neg hd]; exact hv
 
-/-- **the key set is valid exactly when the dictionary is** - after every guarded history with positive times,
-from the fresh dictionary: valid from the dictionary's first write on -/
-theorem keyset_valid_iff_dict_valid : ∀ (h : List (Prim × Nat)) (now : Nat) (s : DK), MonoK now h → GuardedRun s h →
+/-- **the key set is valid exactly when the dictionary is** - after EVERY history with positive times: valid from the
+dictionary's first write on, whatever that write is -/
+theorem keyset_valid_iff_dict_valid : ∀ (h : List (Prim × Nat)) (now : Nat) (s : DK), MonoK now h →
     (s.keys ≠ [] → s.k ≠ 0) → (s.k ≠ 0 ↔ s.d ≠ 0) →
     ((dkRun h s).k ≠ 0 ↔ (dkRun h s).d ≠ 0)
-  | [], _, _, _, _, _, hv => hv
-  | x :: xs, _, s, hm, hg, hk, hv => by
+  | [], _, _, _, _, hv => hv
+  | x :: xs, _, s, hm, hk, hv => by
     rw [dkRun_cons]
-    exact keyset_valid_iff_dict_valid xs x.2 (dkStep s x.1 x.2) hm.2.2 hg.2
-      (step_keys_k s x.1 x.2 hm.2.1 hk) (step_valid_iff s x.1 x.2 hm.2.1 hg.1 hk hv)
+    exact keyset_valid_iff_dict_valid xs x.2 (dkStep s x.1 x.2) hm.2.2
+      (step_keys_k s x.1 x.2 hm.2.1 hk) (step_valid_iff s x.1 x.2 hm.2.1 hk hv)
 
 /-- the same from the fresh dictionary -/
-theorem keyset_valid_iff_dict_valid_fresh (h : List (Prim × Nat)) (hm : MonoK 0 h) (hg : GuardedRun {} h) :
+theorem keyset_valid_iff_dict_valid_fresh (h : List (Prim × Nat)) (hm : MonoK 0 h) :
     (dkRun h {}).k ≠ 0 ↔ (dkRun h {}).d ≠ 0 :=
-  keyset_valid_iff_dict_valid h 0 {} hm hg (fun h => absurd rfl h) ⟨fun h => absurd rfl h, fun h => absurd rfl h⟩
+  keyset_valid_iff_dict_valid h 0 {} hm (fun h => absurd rfl h) ⟨fun h => absurd rfl h, fun h => absurd rfl h⟩
 
 /-! ## modified -/
 
-/-- on guarded steps the code is the tidy rule -/
-theorem stamps_eq_spec (s : DK) (p : Prim) (hg : Guarded s p) (hk : s.keys ≠ [] → s.k ≠ 0) :
+/-- the code is the tidy rule -/
+theorem stamps_eq_spec (s : DK) (p : Prim) (hk : s.keys ≠ [] → s.k ≠ 0) :
     stamps s p = specStamps s p := by
   unfold specStamps
   cases p with
   | «at» key => simp only [stamps, ticks, changed]; cases (!s.keys.contains key) <;> simp
-  | childTick =>
-    have hk0 : s.k ≠ 0 := hk hg
-    simp [stamps, ticks, changed, hk0]
-  | erase key =>
-    simp only [stamps, ticks, changed, Bool.true_and]
+  | childTick key =>
+    simp only [stamps, ticks, changed, Bool.false_or]
     cases hc : s.keys.contains key
-    · have hk0 : s.k ≠ 0 := by
-        rcases hg with h | h
-        · rw [hc] at h; cases h
-        · exact h
-      simp [hk0]
     · simp
+    · have hne : s.keys ≠ [] := by intro h; rw [h] at hc; simp at hc
+      have hk0 : s.k ≠ 0 := hk hne
+      simp [hk0]
+  | erase key => simp [stamps, ticks, changed]
   | touch => simp [stamps, ticks, changed]
   | emptyDelta => simp [stamps, ticks, changed]
 
-/-- **modified exactly on a membership change or the first write**: a guarded step at `t ≥ now` -/
+/-- **modified exactly on a membership change or the first write**: a step at `t ≥ now` -/
 theorem keyset_modified_iff_membership_changed_or_first_write {now : Nat} {s : DK} (hi : KInv now s) (p : Prim)
-    (t : Nat) (hn : now ≤ t) (hg : Guarded s p) :
+    (t : Nat) (hn : now ≤ t) :
     (dkStep s p t).k = t ↔ (s.k = t ∨ (ticks s p = true ∧ (changed s p = true ∨ s.k = 0))) := by
   have hkle : s.k ≤ t := Nat.le_trans (Nat.le_trans hi.k_le_d hi.d_le) hn
-  have hspec := stamps_eq_spec s p hg hi.keys_k
+  have hspec := stamps_eq_spec s p hi.keys_k
   unfold dkStep; simp only
   by_cases hs : stamps s p = true
   · simp only [hs, if_true, record_eq_of_le hkle, true_iff]
@@ -216,43 +213,49 @@ def specStep (s : DK) (p : Prim) (t : Nat) : DK :=
 
 def specRun (h : List (Prim × Nat)) (s : DK) : DK := h.foldl (fun s x => specStep s x.1 x.2) s
 
-/-- on guarded histories the code and the tidy machine agree on both records and the keys, after every history -/
-theorem keyset_lmt_eq_spec : ∀ (h : List (Prim × Nat)) (now : Nat) (s : DK), MonoK now h → GuardedRun s h →
+/-- the code and the tidy machine agree on both records and the keys, after every history -/
+theorem keyset_lmt_eq_spec : ∀ (h : List (Prim × Nat)) (now : Nat) (s : DK), MonoK now h →
     (s.keys ≠ [] → s.k ≠ 0) → dkRun h s = specRun h s
-  | [], _, _, _, _, _ => rfl
-  | x :: xs, _, s, hm, hg, hk => by
+  | [], _, _, _, _ => rfl
+  | x :: xs, _, s, hm, hk => by
     have hstep : dkStep s x.1 x.2 = specStep s x.1 x.2 := by
-      unfold dkStep specStep; rw [stamps_eq_spec s x.1 hg.1 hk]
+      unfold dkStep specStep; rw [stamps_eq_spec s x.1 hk]
     show dkRun xs (dkStep s x.1 x.2) = specRun xs (specStep s x.1 x.2)
     rw [← hstep]
-    exact keyset_lmt_eq_spec xs x.2 (dkStep s x.1 x.2) hm.2.2 hg.2 (step_keys_k s x.1 x.2 hm.2.1 hk)
+    exact keyset_lmt_eq_spec xs x.2 (dkStep s x.1 x.2) hm.2.2 (step_keys_k s x.1 x.2 hm.2.1 hk)
 
-/-! ## what the code does on an unguarded history, and what the seeded change does -/
+/-! ## regression witnesses: the rule before /repo 8d7f72a, and the seeded change s64 -/
 
-/-- the full statement, without the guard -/
-def KeysetValidFull : Prop :=
-  ∀ (h : List (Prim × Nat)), MonoK 0 h → ((dkRun h {}).k ≠ 0 ↔ (dkRun h {}).d ≠ 0)
+def dkRunPreFix (h : List (Prim × Nat)) (s : DK) : DK := h.foldl (fun s x => dkStepPreFix s x.1 x.2) s
 
-/-- `erase` of an absent key as the very first write: the dictionary is valid, its key set is not -/
-theorem blind_erase_first_write_leaves_keyset_invalid :
-    (dkRun [(.erase 5, 1)] {}).d = 1 ∧ (dkRun [(.erase 5, 1)] {}).k = 0 := by decide
+/-- with the pre-fix rule an `erase` of an absent key as the very first write leaves the dictionary valid and its key
+set invalid - in that cycle and after a later blind erase; the coded rule keeps both valid on the same history -/
+theorem prefix_blind_erase_leaves_keyset_invalid :
+    let h : List (Prim × Nat) := [(.erase 5, 1), (.erase 5, 2)]
+    MonoK 0 h ∧ (dkRunPreFix h {}).d = 2 ∧ (dkRunPreFix h {}).k = 0 ∧ (dkRun h {}).d = 2 ∧ (dkRun h {}).k = 1 := by
+  refine ⟨by simp [MonoK], by decide, by decide, by decide, by decide⟩
 
-theorem not_keysetValidFull : ¬ KeysetValidFull := by
+/-- so the validity lemma is false for the pre-fix rule -/
+theorem prefix_not_keysetValid :
+    ¬ (∀ (h : List (Prim × Nat)), MonoK 0 h → ((dkRunPreFix h {}).k ≠ 0 ↔ (dkRunPreFix h {}).d ≠ 0)) := by
   intro h
-  have := h [(.erase 5, 1)] (by simp [MonoK])
-  have hb := blind_erase_first_write_leaves_keyset_invalid
-  rw [hb.1, hb.2] at this
-  exact absurd (this.mpr (by decide)) (by decide)
+  have h1 := h [(.erase 5, 1)] (by simp [MonoK])
+  exact absurd (h1.mpr (by decide)) (by decide)
+
+/-- `clear()` (= `touch`, then `erase` of every live key) on a never-valid dictionary validates dictionary and key set -/
+theorem clear_validates_keyset (t : Nat) (ht : 0 < t) :
+    (dkRun ((clearPrims {}).map (fun p => (p, t))) {}).k = t ∧ (dkRun ((clearPrims {}).map (fun p => (p, t))) {}).d = t := by
+  simp [clearPrims, dkRun, dkStep, stamps, ticks, keysAfter, record]
+  omega
 
 /-- the seeded change s64 (the test in `touch()` reads the dictionary's record after it was stamped): a first write
 that is a bare `touch()` (or an empty delta) leaves the key set invalid in that cycle and in every later one until a
-key is inserted or erased - on a GUARDED history, where the code at HEAD keeps it valid -/
+key is inserted or erased - where the code at HEAD keeps it valid -/
 theorem seeded_touch_leaves_keyset_invalid :
     let h : List (Prim × Nat) := [(.touch, 1), (.touch, 2), (.emptyDelta, 3)]
-    GuardedRun {} h ∧ (dkRun h {}).k = 1 ∧ (dkRun h {}).d = 2 ∧
+    (dkRun h {}).k = 1 ∧ (dkRun h {}).d = 2 ∧
       (h.foldl (fun s x => dkStepSeeded s x.1 x.2) {}).k = 0 ∧ (h.foldl (fun s x => dkStepSeeded s x.1 x.2) {}).d = 2 := by
-  refine ⟨?_, by decide, by decide, by decide, by decide⟩
-  simp [GuardedRun, Guarded]
+  refine ⟨by decide, by decide, by decide, by decide⟩
 
 /-! ## the dictionary and its key set as producer endpoints; a consumer bound to the key set -/
 
@@ -350,14 +353,14 @@ theorem keyset_consumer_eq_keyset_record (st : Bool) (o ko : Nat) (hne : o ≠ k
 /-! ## non-vacuity -/
 
 /-- first write EMPTY (bare touch at 1), quiet, a value-only... first key at 3, value-only write at 4, erase at 5 -/
-def exEmptyFirst : List (Prim × Nat) := [(.touch, 1), (.at 3, 3), (.childTick, 3), (.childTick, 4), (.erase 3, 5), (.touch, 7)]
+def exEmptyFirst : List (Prim × Nat) := [(.touch, 1), (.at 3, 3), (.childTick 3, 3), (.childTick 3, 4), (.erase 3, 5), (.touch, 7)]
 /-- first write WITH a key (control) -/
-def exKeyFirst : List (Prim × Nat) := [(.at 1, 1), (.childTick, 1), (.childTick, 3), (.emptyDelta, 4)]
+def exKeyFirst : List (Prim × Nat) := [(.at 1, 1), (.childTick 1, 1), (.childTick 1, 3), (.emptyDelta, 4)]
 
-example : MonoK 0 exEmptyFirst ∧ GuardedRun {} exEmptyFirst := by
-  simp [exEmptyFirst, MonoK, GuardedRun, Guarded, dkStep, stamps, ticks, keysAfter, record]
-example : MonoK 0 exKeyFirst ∧ GuardedRun {} exKeyFirst := by
-  simp [exKeyFirst, MonoK, GuardedRun, Guarded, dkStep, stamps, ticks, keysAfter, record]
+example : MonoK 0 exEmptyFirst := by simp [exEmptyFirst, MonoK]
+example : MonoK 0 exKeyFirst := by simp [exKeyFirst, MonoK]
+/-- first write = an erase of an absent key: both valid (the repaired rule) -/
+example : (dkRun [(.erase 5, 1)] {}).k = 1 ∧ (dkRun [(.erase 5, 1)] {}).d = 1 := by decide
 /-- after the empty first write both are valid and modified at 1 -/
 example : (dkRun (exEmptyFirst.take 1) {}).k = 1 ∧ (dkRun (exEmptyFirst.take 1) {}).d = 1 := by decide
 /-- the value-only write at 4 ticks the dictionary, not the key set; the erase at 5 ticks both; the touch at 7 the
